@@ -82,6 +82,7 @@ func run(col *core.Collector, prop, tier, variant string, seed uint64, shard, ns
 	case "C13":
 		seq.RunProperty(col, prop, tier, seed, shard, nshards, replayDir)
 		seq.RunSched(col, tier, seed, shard, nshards, replayDir)
+		seq.RunExtend(col, tier, seed, shard, nshards, replayDir)
 	case "C20", "C04", "C05", "C06":
 		if variant == "plain" {
 			seq.RunProperty(col, prop, tier, seed, shard, nshards, replayDir)
